@@ -566,7 +566,7 @@ def _list_tokens(expr, env, new_p: str) -> Optional[List[str]]:
         if expr.id == new_p:
             return None
         return list(env[expr.id]) if expr.id in env else None
-    if isinstance(expr, ast.List):
+    if isinstance(expr, (ast.List, ast.Tuple)):
         out = []
         for e in expr.elts:
             if isinstance(e, ast.Name) and e.id == new_p:
@@ -722,6 +722,32 @@ def r2(ctx, model: Model):
     ctor = [s for s in stores(init.node) if s.path == "self.caps" and s.kind == "assign"]
     ctx.ob("C16.R2", "ProxiedRegion.caps is a CapsMultiDict", len(ctor) == 1 and isinstance(ctor[0].value, ast.Call) and
            call_attr(ctor[0].value) == "CapsMultiDict", init.where, "a plain MultiDict appends: lookups by name return the oldest grant")
+    # the name -> URL view keeps every entry in caps order (a dict / set in between collapses repeated names to the
+    # last one seen, which under prepend-on-add is the OLDEST grant)
+    cu = repo.fn("ProxiedRegion.cap_urls")
+    ctors = [c for r in returns_of(cu.node) if r.value is not None for c in [r.value]
+             if isinstance(c, ast.Call) and (call_attr(c) or "").endswith("MultiDict")]
+    if ctors:
+        for c in ctors:
+            arg = c.args[0] if c.args else None
+            collapsing = [n_ for n_ in ast.walk(c) if isinstance(n_, (ast.DictComp, ast.SetComp, ast.Dict)) or
+                          (isinstance(n_, ast.Call) and ap(n_.func) in ("dict", "set", "frozenset", "sorted", "reversed"))]
+            in_order = isinstance(arg, (ast.GeneratorExp, ast.ListComp)) and len(arg.generators) == 1 and \
+                isinstance(arg.generators[0].iter, ast.Call) and call_attr(arg.generators[0].iter) == "items" and \
+                model.is_caps_attr(arg.generators[0].iter.func.value, cu) and not arg.generators[0].ifs
+            if not collapsing and not in_order:
+                raise AnalysisError(f"ProxiedRegion.cap_urls: unsupported construction `{norm(c)}`")
+            ctx.ob("C16.R2", "ProxiedRegion.cap_urls keeps every (name, url) of caps in caps order", not collapsing and in_order,
+                   ctx.w(cu, c), f"built through `{norm(collapsing[0])}`: repeated names collapse / reorder, so lookup by "
+                                 f"name in the view no longer yields the most recent grant" if collapsing else "")
+    else:
+        loops = [l for l in walk(cu.node) if isinstance(l, ast.For) and isinstance(l.iter, ast.Call) and
+                 call_attr(l.iter) == "items" and model.is_caps_attr(l.iter.func.value, cu)]
+        adds = [c for l in loops for c in find_calls(l, "add")]
+        if not adds:
+            raise AnalysisError("ProxiedRegion.cap_urls: neither a MultiDict construction nor an add() loop over caps.items()")
+        ctx.ob("C16.R2", "ProxiedRegion.cap_urls keeps every (name, url) of caps in caps order",
+               all(not facts(c, cu.node) for c in adds), cu.where, "entries are added conditionally")
     # grant sites
     n = 0
     for fi, node, kind, method in caps_mutations(model):
